@@ -21,6 +21,7 @@ mod c05;
 mod c06;
 mod c07;
 mod c08;
+mod c09;
 mod c16;
 mod c17;
 mod c19;
@@ -85,6 +86,7 @@ fn main() {
         "c06" => c06::run(&args, &mut report),
         "c07" => c07::run(&args, &mut report),
         "c08" => c08::run(&args, &mut report),
+        "c09" => c09::run(&args, &mut report),
         "c16" => c16::run(&args, &mut report),
         "c17" => c17::run(&args, &mut report),
         "c19" => c19::run(&args, &mut report),
